@@ -550,6 +550,19 @@ def discharge(dom, name, hyps, goal, timeout_ms=10000, use_cvc5=True, kind="unbo
                 r, backend, m, formulas, lem = worst
     dt = time.time() - t0
     if r == "unsat":
+        if backend in ("z3", "cvc5") and getattr(dom, "div_facts", None):
+            # vacuity guard for the `no division by zero` hypotheses: the hypotheses used must be satisfiable --
+            # a divisor that MUST vanish would make them contradictory and everything provable
+            used = dom._prep(formulas[:-1] + [g])
+            divs = set(f.get_id() for f in dom.div_facts)
+            if any(f.get_id() in divs for f in used):
+                rv, _ = dom.check(formulas[:-1] + [g], timeout_ms=3000)
+                if rv == "unsat":
+                    rv2, _ = dom.check([f for f in formulas[:-1] if f.get_id() not in divs] + [g], timeout_ms=3000)
+                    if rv2 != "unsat":
+                        return Result(name, "refuted", time.time() - t0, backend, model=None, kind=kind,
+                                      detail="a divisor occurring in this obligation is zero on every admissible input "
+                                             "(non-finite result); the no-division-by-zero hypothesis is contradictory")
         return Result(name, "proved", dt, backend, kind=kind)
     if r == "sat":
         mm = minimise_model(dom, formulas, min(timeout_ms, 4000)) or m
